@@ -14,7 +14,9 @@ Section Licensing.
 Variable O : oracle.
 
 (* ---- validate_symbols over (key, aliases, flag) entries with valid keys ---- *)
-Definition norm_alias (a : str) : str := norm_spaces O (strip O (lower O a)).
+(* the lower-cased words of the alias as the matcher sees them (split on white space and on parentheses), joined by single
+   spaces: aliases that differ only in letter case or in the white space between words and around parentheses are one alias *)
+Definition norm_alias (a : str) : str := join_sp (lwords O a).
 
 (* one entry: the set of names it claims (normalised non-empty aliases and its lower-cased key) *)
 Definition entry_names (e : entry) : list str :=
